@@ -10,6 +10,7 @@ import (
 	"fmt"
 	r "reflect"
 	"os"
+	"regexp"
 	"sort"
 	"time"
 	"strings"
@@ -131,9 +132,16 @@ func c38One(c *core.Ctx, corpus string, p *oracle.Prog, want string) {
 		if i := strings.Index(line, "\n"); i > 0 {
 			line = line[:i]
 		}
-		c.Violation("C38|"+corpus+"|"+strings.TrimPrefix(line, "// "), fmt.Sprintf("compiled Go: %q   classic interpreter: %q\n%s", want, got, p.Source()), c38Case{corpus, *p, want})
+		sig := "C38|" + corpus + "|" + strings.TrimPrefix(line, "// ")
+		if c38LabelledJump.MatchString(p.Body) {
+			// the classic interpreter ignores the label of break/continue (always the innermost statement)
+			sig = "C38|labelled-break-or-continue"
+		}
+		c.Violation(sig, fmt.Sprintf("compiled Go: %q   classic interpreter: %q\n%s", want, got, p.Source()), c38Case{corpus, *p, want})
 	}
 }
+
+var c38LabelledJump = regexp.MustCompile(`\b(break|continue) [A-Za-z_]\w*`)
 
 func c38Replay(c *core.Ctx, raw json.RawMessage) {
 	var cas c38Case
@@ -141,4 +149,32 @@ func c38Replay(c *core.Ctx, raw json.RawMessage) {
 		panic(err)
 	}
 	c38One(c, cas.Corpus, &cas.Prog, cas.Want)
+}
+
+// C38Probe lists the failing programs whose id starts with prefix (development aid).
+func C38Probe(prefix string, report func(id, line, want, got string)) {
+	c := core.NewProbeCtx("C38", "quick")
+	for _, spec := range diffSpecs {
+		if spec.Classic == nil {
+			continue
+		}
+		valid, _, want, err := spec.corpus(c)
+		if err != nil {
+			panic(err)
+		}
+		for i := range valid {
+			p := &valid[i]
+			if !spec.Classic(p) || !strings.HasPrefix(p.ID, prefix) {
+				continue
+			}
+			res := c38RunProg(p)
+			got := res.Out
+			if res.CompileErr != "" {
+				got = "ERROR: " + res.CompileErr
+			}
+			if got != want[p.ID] {
+				report(p.ID, p.Body, want[p.ID], got)
+			}
+		}
+	}
 }
